@@ -206,7 +206,7 @@ def k2(shape):
                 if res['header'] == cand[h].header.hex() and hex_str_to_hash(res['root']) == root and \
                         chain.ref_fold(cand[h].hash, [hex_str_to_hash(x) for x in res['branch']], h) == root:
                     ok = True
-            eng.prove(ok, 'K2: a header proof answered during a reorganisation verifies against no chain the daemon was on',
+            eng.prove(ok, 'K2: a header proof answered during a story verifies against no chain the daemon was on',
                       {'signature': 'K2-inflight-header-proof', 'h': h, 'cp': cp})
         for r in st.requests:
             if not (r['label'].startswith('query id_from_pos_merkle') and r['done'] and r['error'] is None):
@@ -303,6 +303,12 @@ def k2_shapes(tier):
                 'script': [('query', 0, 'header_proof', (1, 6)),
                            (('when', 'daemon:block_hex_hashes', 2), ('query', 0, 'header_proof', (1, 8))),
                            ('reorg', 4, [cbB, cbC, cbA, cbB, cbC])]})
+    # two header proofs with different checkpoints beyond the cached length issued together (no reorg): both extend
+    # the header cache concurrently
+    out.append({'initial': [cbA, cbB, cbC, cbA, cbB, cbC, cbA, cbB, cbC], 'deviations': 1, 'early': False, 'reorg_limit': 4,
+                'filter': 'db:',
+                'script': [(('when', 'bp.sleep', 1), ('query', 0, 'header_proof', (1, 8))),
+                           (('when', 'bp.sleep', 1), ('query', 0, 'header_proof', (2, 6))), ('block', cbA)]})
     # header(s) above the fork point read before the undo, their proof computed after the reorg: the reply must be
     # of one chain
     out.append({'initial': [cbA, cbB, cbC, cbA, cbB, cbC, cbA, cbB, cbC], 'deviations': 1, 'early': False, 'reorg_limit': 4,
@@ -350,7 +356,7 @@ KERNELS = [
            encodes=['electrumx/lib/merkle.py:MerkleCache._extend_to', '_level_for', 'truncate', 'branch_and_root',
                     'electrumx/server/db.py:DB.backup_fs', 'header_branch_and_root', 'populate_header_merkle_cache',
                     'electrumx/server/session.py:SessionManager._handle_chain_reorgs', 'tx_hashes_at_blockheight'],
-           bounds='8 stories (x2 deviation budgets in thorough) on a 6..9-block start with reorg limit 4; interleaving '
+           bounds='9 stories (x2 deviation budgets in thorough) on a 6..9-block start with reorg limit 4; interleaving '
                   'as in C07',
            outside='as C07', assumptions=['as C07'], witnesses=1, split_depth=1),
 ]
